@@ -585,3 +585,28 @@ Fixpoint lstrip (t : bytes) : bytes :=
 (* value.lstrip().startswith(POSSIBLE_UNSAFE_KEYS) *)
 Definition oct_import_warns (text : bytes) : bool :=
   existsb (fun p => is_prefix p (lstrip text)) possible_unsafe_keys.
+
+(* ---------- every route by which key TEXT becomes an oct key ---------- *)
+(* OctKey.import_key(text);  JWKRegistry.import_key(text, "oct") -> OctKey.import_key;
+   the raw str / bytes key argument of an entry point: guess_key -> _normalize_key(key)
+   -> OctKey.import_key(key);  a callable returning str / bytes: guess_key ->
+   _normalize_key(key(obj)) -> OctKey.import_key.  All of them end in
+   OctBinding.import_from_bytes(to_bytes(text)), where the warning is raised. *)
+Inductive text_route := RtImportKey | RtRegistry | RtEntryArg | RtEntryCallable.
+
+(* the key made of the text: its octets, always "private", nothing declared *)
+Definition oct_of_text (text : bytes) : key :=
+  {| k_kty := KOct; k_crv := ""; k_bits := 8 * lenN text; k_priv := true;
+     k_use := None; k_ops := None; k_alg := None |}.
+
+Definition import_from_bytes (text : bytes) : key * bool :=
+  (oct_of_text text, oct_import_warns text).
+
+(* -> (the key, a UserWarning "This key may not be safe to import" was raised) *)
+Definition import_text (r : text_route) (text : bytes) : key * bool :=
+  match r with
+  | RtImportKey => import_from_bytes text                 (* OctKey.import_key *)
+  | RtRegistry => import_from_bytes text                  (* JWKRegistry.import_key(_, "oct") *)
+  | RtEntryArg => import_from_bytes text                  (* _normalize_key(key) *)
+  | RtEntryCallable => import_from_bytes text             (* _normalize_key(key(obj)) *)
+  end.
